@@ -130,15 +130,7 @@ pub fn run(out: &mut Out, rng: &mut Rng, thorough: bool) {
 				let Some(input) = spell(a, &v, &sp) else { continue };
 				out.count(&format!("pair.{}->{}", a.name(), b.name()));
 				fixed_point(out, rng, "cdm", a, b, &input);
-				// There-and-back is stated for documents, not for spellings of
-				// them: A→A keeps a non-minimal source spelling's serde width
-				// class (e.g. a non-negative MessagePack integer in a signed
-				// marker stays signed) while A→B→A re-derives it from B, so the
-				// source is given in its canonical spelling here. (C01 covers
-				// every spelling for value fidelity.)
-				if let Some(canonical) = spell(a, &v, &Spelling::plain()) {
-					there_and_back(out, rng, &v, a, b, &canonical);
-				}
+				there_and_back(out, rng, &v, a, b, &input);
 			}
 		}
 	}
